@@ -29,7 +29,7 @@ ENCODED = [("traits/trait_types.py", ["Delegate.__init__", "Delegate.as_ctrait"]
            ("traits/has_traits.py", ["get_delegate_pattern", "HasTraits._init_trait_delegate_listener",
                                      "HasTraits._remove_trait_delegate_listener", "HasTraits._trait_delegate_name"]),
            ("traits/ctraits.c", ["getattr_delegate", "setattr_delegate", "delegate_attr_name_name", "delegate_attr_name_prefix",
-                                 "delegate_attr_name_prefix_name", "delegate_attr_name_class_name", "_trait_delegate"])]
+                                 "delegate_attr_name_prefix_name", "delegate_attr_name_class_name", "_trait_delegate", "_has_traits_trait"])]
 EXPLANATION = ("(a) symbolic execution of the prefix classification on an unbounded symbolic prefix (z3 strings); (b) bounded history "
                "exploration on real objects through the compiled extension (choice feasibility only).")
 STUBS = []
